@@ -182,6 +182,124 @@ def prov_leg(ctx):
     return n
 
 
+def nocache_leg(ctx):
+    """run(cache=False) is imposed by the scheduler over the cache options of every other layer: definition (cache=False, cache_scope),
+    call time (options(cache=True)) and export by the ancestor; first execution fills the backend, second runs with cache=False."""
+    from redun import task
+
+    from engine import evloop
+
+    n = 0
+    for leaf_def, leaf_call, top_export in itertools.product(
+            ({}, {"cache": False}, {"cache_scope": "NONE"}, {"cache_scope": "CSE"}),
+            ({}, {"cache": True}, {"cache_scope": "BACKEND"}),
+            (None, "call", "definition")):
+        def leaf():
+            return 1
+
+        def top():
+            t = REG["leaf"].options(**leaf_call) if leaf_call else REG["leaf"]
+            return t()
+
+        REG = {}
+        REG["leaf"] = task(name="nleaf", namespace="c27", **leaf_def)(leaf)
+        REG["top"] = task(name="ntop", namespace="c27", **({"export_options": {"cache": True}} if top_export == "definition" else {}))(top)
+        env = evloop.Env([])
+        seen = {}
+        orig = env.ctl.on_submit
+
+        def on_submit(job, script=False):
+            if env.ctl.run_index == 1:
+                seen[job.task.fullname] = repr(job.get_options().get("cache_scope"))
+            return orig(job, script)
+
+        env.ctl.on_submit = on_submit
+        try:
+            root = REG["top"].export_options(cache=True) if top_export == "call" else REG["top"]
+            o1 = env.run(root())
+            o2 = env.run(root(), cache=False)
+        finally:
+            env.close()
+        n += 1
+        case = {"leaf_definition": leaf_def, "leaf_call_options": leaf_call, "ancestor_exports_cache_true": top_export}
+        if o1 != ("ok", 1) or o2 != ("ok", 1):
+            ctx.violation("nocache:run-fails", case, f"{case}: {o1!r} {o2!r}")
+            continue
+        for name in ("c27.ntop", "c27.nleaf"):
+            if name not in seen:
+                ctx.violation(f"nocache:job-replayed-from-backend:{name}", case,
+                              f"{case}: second execution ran with cache=False but {name} was not handed to an executor (jobs submitted: {seen})")
+            elif "CSE" not in seen[name]:
+                ctx.violation(f"nocache:imposed-cache-scope-missing:{name}", case, f"{case}: run(cache=False) but {name} ran with cache_scope {seen[name]}")
+    return n
+
+
+def task_value_leg(ctx):
+    """A Task VALUE carrying call-time options / exported options is produced by one task and called by another; in the second
+    execution the value is replayed from the backend (deserialized) before it is called: its options and exported names still apply."""
+    from redun import task
+
+    from engine import evloop
+
+    n = 0
+    for how in ("options", "export_options", "options+export_options"):
+        def leaf2():
+            return 1
+
+        def mid2():
+            return REG["leaf2"]()
+
+        def mk():
+            t = REG["mid2"]
+            if how == "options":
+                return t.options(k="c")
+            if how == "export_options":
+                return t.export_options(k="e")
+            return t.options(j="c").export_options(k="e")
+
+        def app(t):
+            return t()
+
+        def main():
+            return REG["app"](REG["mk"]())
+
+        REG = {}
+        REG["leaf2"] = task(name="vleaf", namespace="c27", cache=False)(leaf2)
+        REG["mid2"] = task(name="vmid", namespace="c27", cache=False)(mid2)
+        REG["mk"] = task(name="vmk", namespace="c27")(mk)
+        REG["app"] = task(name="vapp", namespace="c27", cache=False)(app)
+        REG["main"] = task(name="vmain", namespace="c27", cache=False)(main)
+        env = evloop.Env([])
+        seen = {}
+        orig = env.ctl.on_submit
+
+        def on_submit(job, script=False):
+            o = job.get_options()
+            seen[(env.ctl.run_index, job.task.fullname)] = (o.get("k", "<unset>"), o.get("j", "<unset>"))
+            return orig(job, script)
+
+        env.ctl.on_submit = on_submit
+        try:
+            outs = [env.run(REG["main"]()) for _ in range(2)]
+        finally:
+            env.close()
+        n += 2
+        want_mid = {"options": ("c", "<unset>"), "export_options": ("e", "<unset>"), "options+export_options": ("e", "c")}[how]
+        want_leaf = {"options": ("<unset>", "<unset>"), "export_options": ("e", "<unset>"), "options+export_options": ("e", "<unset>")}[how]
+        for ri in (0, 1):
+            case = {"task_value_built_with": how, "execution": ri + 1}
+            if outs[ri] != ("ok", 1):
+                ctx.violation("task-value:run-fails", case, f"{case}: {outs[ri]!r}")
+                continue
+            if ri == 1 and (1, "c27.vmk") in seen:
+                continue  # the producer ran again: nothing was deserialized, nothing to check
+            got = (seen.get((ri, "c27.vmid")), seen.get((ri, "c27.vleaf")))
+            if got != (want_mid, want_leaf):
+                ctx.violation(f"task-value:options-lost:{how}:{'replayed-value' if ri else 'live-value'}", case,
+                              f"{case}: the called task and its child ran with (k, j) = {got}, expected {(want_mid, want_leaf)}")
+    return n
+
+
 def run(ctx):
     from engine import seams
     from engine.common import check_harness_errors
@@ -198,13 +316,15 @@ def run(ctx):
     res = ctx.pmap(work, chunks, chunksize=1)
     check_harness_errors(res)
     ctx.add_results(res)
-    n2 = prov_leg(ctx)
+    n2 = prov_leg(ctx) + nocache_leg(ctx) + task_value_leg(ctx)
     kinds = set().union(*[r["kinds"] for r in res])
     return {"coverage": {
         "evaluations": sum(r["n"] for r in res) + n2, "distinct_nontrivial": len(kinds), "exhaustive": True,
         "rule": "every chain of 3 jobs where each level independently sets option k at definition time (plain or exported) and/or at call time "
         "(options, export_options, an expression-valued option inc(..), or an exported container option with an expression nested inside); the options each job is submitted with are read by the interposed "
         "executor and compared with the documented precedence; plus run(cache=False) chains (imposed cache scope) and a prov=False ancestor "
-        "(imposed prov / cache scope over any call-time setting); distinct = distinct option-value vectors",
+        "(imposed prov / cache scope over any call-time setting); a backend filled by a first execution followed by run(cache=False) for every combination of the leaf's "
+        "definition cache option (none, cache=False, cache_scope NONE/CSE), call-time cache option (none, cache=True, cache_scope BACKEND) and an ancestor exporting "
+        "cache=True (at call or definition): every job is handed to an executor again and runs with cache scope CSE; Task values built with options / export_options, produced by one task and called by another, live and replayed from the backend; distinct = distinct option-value vectors",
         "samples": [{"levels": [list(l) for l in c[0]], "mode": c[1]} for c in combos[:2]],
     }, "assumptions": ["default completion schedule"]}
